@@ -13,7 +13,7 @@ from vf.sim import mdns
 from vf.sim.scenario import Sim
 
 LEVEL = "exploration"
-RULE = ("address lists of 1-3 hosts from {v4 literal, v6 literal, v6%numeric-scope literal, bare name, x.local, x.local., FQDN, FQDN.} x per-host mDNS outcome "
+RULE = ("address lists of 1-3 hosts from {v4 literal, v6 literal, v6%numeric-scope literal, bare name, x.local, x.local., FQDN, FQDN., bare name with a 64-byte label, .local name with a control character (both not expressible in mDNS)} x per-host mDNS outcome "
         "{v4, v6, both, several of each, no answer within the timeout, raises} x per-host OS-resolver outcome {v4, v6, both (v4 first), empty, gaierror, "
         "unknown address family only} x zeroconf provision {no manager, empty manager, supplied AsyncZeroconf, supplied Zeroconf, instance the library "
         "created earlier and still uses, empty manager on a host where no mDNS socket can be opened (followed by the application supplying its own instance)} x entry point {host_resolver.async_resolve_host, APIClient.start_connection (addresses captured at the "
@@ -37,6 +37,7 @@ PORT = 6053
 LITERAL = ("v4", "v6", "v6scope")
 NAMES = ("bare", "local", "local.")
 FQDN = ("fqdn", "fqdn.")
+UNEXPRESSIBLE = ("bare-64-byte-label", "local-control-char")   # bare / .local names that mDNS cannot express: the lookup fails before any request -> OS resolver
 MDNS_FOUND = ("v4", "v6", "both", "multi")
 MDNS_NOTHING = ("none", "raise")
 OS_KINDS = ("v4", "v6", "both", "empty", "gaierror", "unknown-family")
@@ -45,7 +46,7 @@ PROVISIONS = ("no-manager", "empty-manager", "supplied-async", "supplied-sync", 
 
 def host_str(form: str, i: int) -> str:
     return {"v4": f"10.{i}.9.9", "v6": f"fd00:{i}::99", "v6scope": f"fe80::{i}:99%{i + 2}", "bare": f"dev{i}", "local": f"dev{i}.local",
-            "local.": f"dev{i}.local.", "fqdn": f"dev{i}.example.com", "fqdn.": f"dev{i}.example.com."}[form]
+            "local.": f"dev{i}.local.", "bare-64-byte-label": f"dev{i}" + "x" * 60, "local-control-char": f"dev{i}\x07.local", "fqdn": f"dev{i}.example.com", "fqdn.": f"dev{i}.example.com."}[form]
 
 
 def mdns_answer(kind: str, i: int) -> Any:
@@ -388,7 +389,7 @@ def per_host_options() -> list[tuple[str, str, str]]:
     for f in NAMES:
         opts += [(f, m, "-") for m in MDNS_FOUND]
         opts += [(f, m, o) for m in MDNS_NOTHING for o in OS_KINDS]
-    for f in FQDN:
+    for f in FQDN + UNEXPRESSIBLE:
         opts += [(f, "-", o) for o in OS_KINDS]
     return opts
 
@@ -586,7 +587,7 @@ def shard(ctx: Ctx) -> None:
 
 
 def exhaustive(tier: str) -> Any:
-    subs = ["all single-host cases x 5 provisions x 2 entry points", "all ordered pairs of per-host options (63^2) for the direct/client entry"
+    subs = ["all single-host cases x 5 provisions x 2 entry points", "all ordered pairs of per-host options (75^2) for the direct/client entry"
             + (" x every provision" if tier == "thorough" else " with the provision rotating"),
             f"all ZeroconfManager operation sequences of length <= {5 if tier == 'thorough' else 4} over {{set_A, set_A_sync, set_B, get, close, get-while-creation-fails}} from 3 initial states"]
     return subs
